@@ -62,6 +62,8 @@ class ClockAndHistory(Harness):
         out.append({"layout": [[7]], "M": 1, "index": False, "agents": False, "chunk": 3})
         out.append({"layout": [[2], [3]], "M": 2, "index": True, "agents": False, "chunk": 3})
         out.append({"layout": [[4]], "M": 1, "index": True, "agents": True, "chunk": 3})
+        # two steps without execution first (crossing quotes wait in the book), then execution
+        out.append({"layout": [[2], [2]], "M": 1, "index": False, "agents": True, "chunk": 3, "noexec_first": True})
         if tier == "thorough":
             out.append({"layout": [[4]], "M": 2, "index": False, "agents": True, "chunk": 3, "light": True})
             out.append({"layout": [[120], [85]], "M": 2, "index": True, "agents": False, "chunk": 100})
@@ -72,7 +74,8 @@ class ClockAndHistory(Harness):
                              "fundamentalDrift": 0.0} for i in range(case["M"])}
         if case["index"]:
             markets["IDX"] = {"class": "IndexMarket", "tickSize": 1, "marketPrice": 300, "markets": list(markets)}
-        sessions = [rn.session(i, n[0], True, True, maxNormalOrders=2) for i, n in enumerate(case["layout"])]
+        sessions = [rn.session(i, n[0], True, not (case.get("noexec_first") and i == 0), maxNormalOrders=2)
+                    for i, n in enumerate(case["layout"])]
         total = sum(n[0] for n in case["layout"])
         rate = g.real("rate", -1, 5, lo_strict=True)
         extra = {"PROBE": {"class": "ProbeAll"},
